@@ -96,8 +96,49 @@ def check(ctx) -> None:
                     if isinstance(x, ast.Raise) and x.exc is not None:
                         raised_types.add(unparse(x.exc.func) if isinstance(x.exc, ast.Call) else unparse(x.exc))
     cname = "RuleImputeManager.add_entry"
+
+    def mutating_calls(f: Func):
+        """statements of f that change the manager's state: container mutation of a self attribute,
+        or a call of a method of the class whose body does so (one level)"""
+        out = []
+        MUT = ("append", "extend", "insert", "remove", "pop", "clear", "add", "discard", "update", "setdefault")
+        for n in own_nodes(f.node):
+            if isinstance(n, ast.Call) and isinstance(n.func, ast.Attribute):
+                if n.func.attr in MUT and unparse(n.func.value).startswith("self."):
+                    out.append(n)
+                elif isinstance(n.func.value, ast.Name) and n.func.value.id == "self":
+                    m2 = prog.lookup_method(cls, n.func.attr)
+                    if m2 is not None and m2 is not f and m2.cls is cls:
+                        inner = [x for x in own_nodes(m2.node) if isinstance(x, ast.Call) and isinstance(x.func, ast.Attribute) and x.func.attr in MUT and unparse(x.func.value).startswith("self.")]
+                        inner += [x for x in own_nodes(m2.node) if isinstance(x, (ast.Assign, ast.AugAssign, ast.Delete)) and any(unparse(t).startswith("self.") for t in (x.targets if not isinstance(x, ast.AugAssign) else [x.target]))]
+                        if inner:
+                            out.append(n)
+        return out
+
+    # (a) nothing is changed on a path that can still reject
+    for mc in mutating_calls(add):
+        nid = cfg.node_of(mc)
+        can_raise_after = nid is not None and cfg.raise_exit in cfg.reachable_from(nid)
+        in_handler = bool(cfg.in_handler(nid)) if nid is not None else False
+        ok = not can_raise_after and not in_handler
+        ctx.instance("C19-U1", "state change %s cannot be followed by a rejection" % unparse(mc)[:50], add.loc(mc), ok=ok)
+        if not ok:
+            ctx.finding("C19-U1", cname + ":state-change-before-rejection:" + unparse(mc.func)[:30], add.loc(mc), "add_entry changes the manager's state (%s) on a path that can still end in a rejection%s: a rejected entry leaves the manager changed" % (unparse(mc)[:50], " (inside an except handler)" if in_handler else ""))
+    # helpers that can reject: the idiom table below only knows the direct any(...) forms
+    helper_rejects = []
+    for n in own_nodes(add.node):
+        if isinstance(n, ast.Call) and isinstance(n.func, ast.Attribute) and isinstance(n.func.value, ast.Name) and n.func.value.id == "self":
+            m2 = prog.lookup_method(cls, n.func.attr)
+            if m2 is not None and m2.cls is cls and m2.name not in ("is_valid_smiles", "decompose") and any(isinstance(x, ast.Raise) for x in own_nodes(m2.node)):
+                helper_rejects.append(m2.name)
     for m in muts:
         mnode = cfg.node_of(m)
+        missing_kinds = [k for k, n in rejections.items() if n is None]
+        if missing_kinds and helper_rejects and ctx.findings:
+            ctx.note("rejections are delegated to %s; the idiom table cannot see kinds %s (violation above decides)" % (sorted(set(helper_rejects)), missing_kinds))
+            break
+        if missing_kinds and helper_rejects:
+            raise AnalysisError("add_entry delegates rejections to %s; the rejection kinds %s are not visible in the recognised form `if any(d[key] == param ...): raise` - extend the idiom table before trusting a verdict" % (sorted(set(helper_rejects)), missing_kinds))
         for kind, n in rejections.items():
             ok = n is not None and cfg.dominates(cfg.node_of(n), mnode) and _false_edge_dominates(cfg, n, mnode)
             ctx.instance("C19-U1", "rejection '%s' dominates the mutation" % kind, add.loc(n) if n is not None else add.loc(), ok=ok)
